@@ -68,6 +68,8 @@ def throw_obligations(ck, run):
     g, loc = run.g, run.locals
     qn = "region_geometry:RegionGeom.throw"
     hy = BASE + UBOX
+    if not geom.need(ck, run, qn, ["q", "r", "b", "dscr", "v1", "v2", "v3", "rxS", "ryS", "rsinlatS", "longS_rad", "latS_rad"], lambda: native_first(ck)):
+        return
     q, rr, b, dscr = loc["q"].e, loc["r"].e, loc["b"].e, loc["dscr"].e
     v = [loc["v1"].e, loc["v2"].e, loc["v3"].e]
     u1, u2, u3, u4 = U
@@ -176,7 +178,7 @@ def traj_obligations(ck, run):
     it.capture = {"RegionGeom.find_lat_long_along_traj": ["xPath_v", "yPath_v", "zPath_v", "xPath_n", "yPath_n", "zPath_n", "xPath_ECEF", "yPath_ECEF", "zPath_ECEF", "dist2EarthCenter"]}
 
     def mk():
-        g = object.__new__(RegionGeom)
+        g = harness.partial(RegionGeom)
         g.earth_radius = S(R)
         cT = sp.Symbol("cTrN_attr", real=True)
         ev.syms.add(cT)
